@@ -373,8 +373,9 @@ fn multiaddr_to_socket_address(
 
     let socket_address = match iter.next() {
         Some(Protocol::Ip6(address)) => match iter.next() {
-            Some(Protocol::Tcp(port)) =>
-                AddressType::Socket(SocketAddr::new(IpAddr::V6(address), port)),
+            Some(Protocol::Tcp(port)) => {
+                AddressType::Socket(SocketAddr::new(IpAddr::V6(address), port))
+            }
             protocol => {
                 tracing::error!(
                     target: LOG_TARGET,
@@ -385,8 +386,9 @@ fn multiaddr_to_socket_address(
             }
         },
         Some(Protocol::Ip4(address)) => match iter.next() {
-            Some(Protocol::Tcp(port)) =>
-                AddressType::Socket(SocketAddr::new(IpAddr::V4(address), port)),
+            Some(Protocol::Tcp(port)) => {
+                AddressType::Socket(SocketAddr::new(IpAddr::V4(address), port))
+            }
             protocol => {
                 tracing::error!(
                     target: LOG_TARGET,
@@ -397,10 +399,12 @@ fn multiaddr_to_socket_address(
             }
         },
         Some(Protocol::Dns(address)) => handle_dns_type(address.into(), DnsType::Dns, iter.next())?,
-        Some(Protocol::Dns4(address)) =>
-            handle_dns_type(address.into(), DnsType::Dns4, iter.next())?,
-        Some(Protocol::Dns6(address)) =>
-            handle_dns_type(address.into(), DnsType::Dns6, iter.next())?,
+        Some(Protocol::Dns4(address)) => {
+            handle_dns_type(address.into(), DnsType::Dns4, iter.next())?
+        }
+        Some(Protocol::Dns6(address)) => {
+            handle_dns_type(address.into(), DnsType::Dns6, iter.next())?
+        }
         protocol => {
             tracing::error!(target: LOG_TARGET, ?protocol, "invalid transport protocol");
             return Err(AddressError::InvalidProtocol);
@@ -428,8 +432,9 @@ fn multiaddr_to_socket_address(
     }
 
     let maybe_peer = match iter.next() {
-        Some(Protocol::P2p(multihash)) =>
-            Some(PeerId::from_multihash(multihash).map_err(AddressError::InvalidPeerId)?),
+        Some(Protocol::P2p(multihash)) => {
+            Some(PeerId::from_multihash(multihash).map_err(AddressError::InvalidPeerId)?)
+        }
         None => None,
         protocol => {
             tracing::error!(
